@@ -118,7 +118,7 @@ def run_libcst(content_kind: int, dry_run: bool, t1: tuple, t2: tuple, n_finding
 def run_regex(content_kind: int, dry_run: bool, matches: bool, sast: bool, n_findings: int, finding_line: int):
     """Real Regex / SastRegex pipeline on a 3-line file; pattern 'a = 1' -> 'a = 2' (matches line 2) or a
     pattern that matches nothing."""
-    if content_kind == 0:
+    if content_kind == 0 or content_kind == 3:
         fp = FakePath(SRC_TEXT.encode(), rel="f.txt")
     elif content_kind == 1:
         fp = FakePath(b"a = '\xff'\n", rel="f.txt")
@@ -127,6 +127,14 @@ def run_regex(content_kind: int, dry_run: bool, matches: bool, sast: bool, n_fin
     results = mk_results(n_findings, finding_line)
     fc = FileContext(Path("/d"), fp, [], [], results)
     klass = SastRegexTransformerPipeline if sast else RegexTransformerPipeline
+    if content_kind == 3:
+        # a plug-in transformer whose substitution step raises (healthy file)
+        base = klass
+
+        class klass(base):  # noqa
+            def _apply_regex(self, line):
+                raise Boom()
+
     pipe = klass(pattern=r"a = 1" if matches else r"zzz", replacement="a = 2", change_description="d")
     exc = None
     cs = None
